@@ -16,6 +16,7 @@
 #   limitations under the License.
 #
 import logging
+import queue
 from multiprocessing import Process, Queue, Pipe
 from multiprocessing.connection import Connection
 from typing import Any, Dict, Iterable, List, Optional, Tuple, Union, cast
@@ -26,6 +27,7 @@ from pysmt.decorators import clear_pending_pop
 from pysmt.logics import convert_logic_from_string, Logic
 from pysmt.fnode import FNode
 from pysmt.utils import assert_not_none
+from pysmt.exceptions import SolverReturnedUnknownResultError
 
 
 LOGGER = logging.getLogger(__name__)
@@ -156,10 +158,25 @@ class Portfolio(IncrementalTrackingSolver):
             _p.start()
             _debug("Started instance of %s", sname)
 
+        failed = 0
         while True:
-            (sname, res) = signaling_queue.get(block=True)
+            try:
+                (sname, res) = signaling_queue.get(block=True, timeout=0.5)
+            except queue.Empty:
+                if any(p.is_alive() for p in processes):
+                    continue
+                # Every solver process is gone: look for a last answer
+                try:
+                    (sname, res) = signaling_queue.get(block=True, timeout=0.5)
+                except queue.Empty:
+                    # Nobody can answer anymore: do not block forever
+                    raise SolverReturnedUnknownResultError(
+                        "All the solvers of the portfolio terminated "
+                        "without providing an answer")
             if isinstance(res, BaseException):
-                if cast(PortfolioOptions, self.options).exit_on_exception:
+                failed += 1
+                if cast(PortfolioOptions, self.options).exit_on_exception or \
+                   failed == len(processes):
                     # Close all solvers and raise exception
                     for p in processes:
                         p.terminate()
